@@ -91,9 +91,9 @@ theorem const_CancelDelete_expected : const_CancelDelete = "1" := by rfl
 theorem fingerprints2_expected : fingerprints2 = [
   ("Data.UpdateIndexInfoTier", "f646eda6d8341354"),
   ("Data.UpdatePtVersion", "5bd693590165e8a7"),
-  ("Data.ReSharding", "efa8cd9a51799ccf"),
-  ("Data.createIndexGroup", "1ee768ec6744efa7"),
-  ("Data.CreateShardGroupWithBounds", "691552c46ec309dd"),
+  ("Data.ReSharding", "eadf078f2244066e"),
+  ("Data.createIndexGroup", "ced451459b14cc52"),
+  ("Data.CreateShardGroupWithBounds", "e44f037c93b2b427"),
   ("Data.ExpandGroups", "0432295b1547e634"),
   ("RetentionPolicyInfo.shardingType", "8aa7094c4b00dbef"),
   ("RetentionPolicyInfo.firstMeasurement", "5d220ca70ab0948b"),
